@@ -261,6 +261,42 @@ fn evm_tx_to(spec: SpecId, a: u64) -> (u8, u64, usize, u64) {
     (c, g, l, gas_limit)
 }
 
+/// The same observation on an Evm that already ran a transaction under `first` and was then
+/// re-targeted to `spec` (`modify().with_spec_id`, which rebuilds the handler and keeps the
+/// Context, or `modify_spec_id`): availability must follow the fork in force, not the fork of the
+/// instance's first transaction.
+fn evm_tx_to_respec(first: SpecId, spec: SpecId, a: u64, via_modify_spec_id: bool) -> (u8, u64, usize, u64) {
+    let gas_limit = 1_000_000u64;
+    let r = catch(|| {
+        let mut evm = base_evm(first, fresh_db(), (), revm::precompile::u64_to_address(a), Bytes::new(), gas_limit);
+        let _ = evm.transact();
+        if via_modify_spec_id { evm.modify_spec_id(spec); } else { evm = evm.modify().with_spec_id(spec).build(); }
+        evm.context.evm.env.block.set_blob_excess_gas_and_price(0, spec.is_enabled_in(SpecId::PRAGUE));
+        evm.transact().map(|x| x.result).map_err(|e| format!("{:?}", e))
+    });
+    let (c, g, l) = outcome_code(&r);
+    (c, g, l, gas_limit)
+}
+fn evm_opcode_respec(first: SpecId, spec: SpecId, byte: u8) -> (u8, u64, u64) {
+    let gas_limit = 300_000u64;
+    let r = catch(|| {
+        let mut code = vec![];
+        for _ in 0..17 { code.extend([0x60u8, 0x01]); }
+        code.push(byte);
+        code.extend([0u8; 40]);
+        let bc = Bytecode::new_legacy(code.into());
+        let mut db = fresh_db();
+        db.insert_account_info(TARGET, AccountInfo { code_hash: bc.hash_slow(), code: Some(bc), ..Default::default() });
+        let mut evm = base_evm(first, db, (), TARGET, Bytes::new(), gas_limit);
+        let _ = evm.transact();
+        evm = evm.modify().with_spec_id(spec).build();
+        evm.context.evm.env.block.set_blob_excess_gas_and_price(0, spec.is_enabled_in(SpecId::PRAGUE));
+        evm.transact().map(|x| x.result).map_err(|e| format!("{:?}", e))
+    });
+    let (c, g, _) = outcome_code(&r);
+    (c, g, gas_limit)
+}
+
 #[derive(Default)]
 struct CallEndRec { probe: Address, seen: Option<(u8, u64, usize)> }
 impl<DB: revm::Database> Inspector<DB> for CallEndRec {
@@ -372,5 +408,31 @@ pub fn run(o: &Opts) {
                    true, &[&t]);
         }
     }
-    w.finish("exhaustive, seed-independent: every SpecId of the build x every opcode byte (one instruction on a prepared legacy and EOF interpreter + EOF validation verdict; the same byte in a one-opcode contract run as a transaction through Evm over CacheDB, EOF contracts from OSAKA), every SpecId x both precompile-set constructors, every SpecId x addresses 0x01..0x14, 0x100, 0xffff as transaction target (empty data) and as CALL target (99-byte probe input, observed by Inspector::call_end); non-trivial = cell not in class 'defined' / halting transaction / every precompile observation");
+    // 4. the same observations on a re-targeted instance: every pair of neighbouring SpecIds, both
+    //    directions; all probed addresses, and the opcodes whose class differs between the two
+    for k in 0..specs.len().saturating_sub(1) {
+        for (first, sp) in [(specs[k], specs[k + 1]), (specs[k + 1], specs[k])] {
+            let s = sp as u8;
+            let mut addrs: Vec<u64> = (1..=0x14).collect();
+            addrs.extend([0x100u64, 0xffff]);
+            for (i, a) in addrs.into_iter().enumerate() {
+                let (c, g, l, lim) = evm_tx_to_respec(first, sp, a, i % 2 == 1);
+                let t = format!("respec-pc-tx-outcome:{}", c);
+                w.push(format!("(PcTx {} {} {} {} {} {})", s, a, c, zu(g), l, zu(lim)),
+                       format!("Evm first used under {} then re-targeted to spec={} ({}): transaction with empty data to address 0x{:x} (gas limit {}) -> outcome {} gas_used {} output_len {}", spec_name(first), spec_name(sp), s, a, lim, c, g, l),
+                       true, &[&t, "respec"]);
+            }
+            for b in 0u16..256 {
+                let b = b as u8;
+                let p = || Prep { eof: false, is_static: false, fill: 1 };
+                if exec_one(first, b, p()).0 == exec_one(sp, b, p()).0 { continue; }
+                let (c, g, lim) = evm_opcode_respec(first, sp, b);
+                let t = format!("respec-evm-legacy-outcome:{}", c);
+                w.push(format!("(EvmOp {} {} false {} {} {})", s, b, c, zu(g), zu(lim)),
+                       format!("Evm first used under {} then re-targeted to spec={} ({}): legacy contract PUSH1 1 x17; 0x{:02x}; 00.. as transaction (gas limit {}) -> outcome {} gas_used {}", spec_name(first), spec_name(sp), s, b, lim, c, g),
+                       true, &[&t, "respec"]);
+            }
+        }
+    }
+    w.finish("exhaustive, seed-independent: every SpecId of the build x every opcode byte (one instruction on a prepared legacy and EOF interpreter + EOF validation verdict; the same byte in a one-opcode contract run as a transaction through Evm over CacheDB, EOF contracts from OSAKA), every SpecId x both precompile-set constructors, every SpecId x addresses 0x01..0x14, 0x100, 0xffff as transaction target (empty data) and as CALL target (99-byte probe input, observed by Inspector::call_end); every ordered pair of neighbouring SpecIds (first, then): an Evm that ran a transaction under `first` and was re-targeted to `then` (modify().with_spec_id / modify_spec_id) x the same addresses as transaction target, and x the opcodes whose class differs between the two; non-trivial = cell not in class 'defined' / halting transaction / every precompile observation");
 }
